@@ -323,7 +323,8 @@ def _law(case, dim, ps):
     else:
         raise KeyError(axes)
     a1, a2 = Rm[:, 0].copy(), Rm[:, 1].copy()
-    kw = dict(thickness=THICKNESS) if dim == 2 else {}
+    # the thickness is a parameter of every law; it must have no effect on a 3D analysis
+    kw = dict(thickness=THICKNESS)
     if name == "iso":
         return (Models.Elastic.Isotropic(dim, planeStress=ps, **R.ISO_PARAMS, **kw),
                 R.ElasticRef(dim, R.isotropic_C4(**R.ISO_PARAMS), None, ps))
